@@ -24,14 +24,14 @@ import (
 // (iii) codec round trip on generated nodes
 
 type codecEntry struct {
-	Key     Val            `json:"key"`
-	Mod     int64          `json:"mod"`
-	Tomb    int64          `json:"tomb,omitempty"`
-	Prev    string         `json:"prev,omitempty"`
-	NoRow   bool           `json:"norow,omitempty"`
-	Deleted bool           `json:"deleted,omitempty"`
-	DelOff  int64          `json:"deloff,omitempty"`
-	Cols    map[string]Val `json:"cols,omitempty"`
+	Key     Val              `json:"key"`
+	Mod     int64            `json:"mod"`
+	Tomb    int64            `json:"tomb,omitempty"`
+	Prev    string           `json:"prev,omitempty"`
+	NoRow   bool             `json:"norow,omitempty"`
+	Deleted bool             `json:"deleted,omitempty"`
+	DelOff  int64            `json:"deloff,omitempty"`
+	Cols    map[string]Val   `json:"cols,omitempty"`
 	ColOff  map[string]int64 `json:"coloff,omitempty"`
 }
 
@@ -292,7 +292,7 @@ func genC16Case(t *rapid.T) C16Case {
 		c.Steps = append(c.Steps, HStep{Op: "txn", Stmts: []Stmt{s}, Auto: true})
 	}
 	n := rapid.IntRange(1, 25).Draw(t, "nsteps")
-	faulted := false
+	faulted, vacuumed := false, false
 	for i := 0; i < n; i++ {
 		switch rapid.IntRange(0, 11).Draw(t, "op") {
 		case 0:
@@ -302,7 +302,13 @@ func genC16Case(t *rapid.T) C16Case {
 		case 2:
 			c.Steps = append(c.Steps, HStep{Op: "refresh"})
 		case 3:
-			c.Steps = append(c.Steps, HStep{Op: "reopen"})
+			if !vacuumed && rapid.IntRange(0, 2).Draw(t, "fv") == 0 {
+				// a vacuum whose own commit runs under a storage fault; the history goes on
+				c.Steps = append(c.Steps, HStep{Op: "faulty-vacuum", FailAt: rapid.IntRange(1, 6).Draw(t, "vfail")})
+				vacuumed = true
+			} else {
+				c.Steps = append(c.Steps, HStep{Op: "reopen"})
+			}
 		default:
 			k := rapid.IntRange(1, 4).Draw(t, "nstmts")
 			st := HStep{Op: "txn", Auto: k == 1 && rapid.Bool().Draw(t, "auto")}
@@ -400,7 +406,7 @@ func runC16(c C16Case, o *Obs) error {
 		if err != nil {
 			return fmt.Errorf("%s: writer tree dump: %v", where, err)
 		}
-		if len(wantGo) != len(w.Entries) {
+		if len(wantGo) != len(w.Entries) && len(currentVersions(store, prefix)) <= 1 {
 			return fmt.Errorf("%s: writer holds %d entries, stored version %d", where, len(wantGo), len(w.Entries))
 		}
 		// a fresh process: new connection, empty cache, read-only
@@ -423,7 +429,10 @@ func runC16(c C16Case, o *Obs) error {
 		if err != nil {
 			return fmt.Errorf("%s: fresh tree dump: %v", where, err)
 		}
-		if a, b := goDumpString(wantGo, true), goDumpString(gotGo, true); a != b {
+		// (when a fault cut short the retirement of a version's parents, a fresh reader merges
+		// the ancestor again: delete markers a vacuum purged come back and previous-version
+		// names differ; the rows, compared above, must still be equal)
+		if a, b := goDumpString(wantGo, true), goDumpString(gotGo, true); a != b && len(currentVersions(store, prefix)) <= 1 {
 			return fmt.Errorf("%s: the stored tree differs from the tree the writer has in memory.\nwriter:\n%sfresh:\n%s", where, a, b)
 		}
 		// point lookups of every key of the domain (present and absent)
@@ -541,6 +550,33 @@ func runC16(c C16Case, o *Obs) error {
 			_ = failed
 			if err := verify(where); err != nil {
 				return err
+			}
+		case "faulty-vacuum":
+			count := 0
+			store.Intercept = func(q *fakes3.Req) error {
+				if q.Client != "verif://w" || !q.Mutating() {
+					return nil
+				}
+				count++
+				if count >= step.FailAt {
+					return fakes3.ErrInjected
+				}
+				return nil
+			}
+			// cutoff after every write: every delete marker is purged, the tree is re-shaped
+			verr := conn.Vacuum(tn, baseTime+1<<30)
+			store.Intercept = nil
+			if verr != nil {
+				o.Class("vacuum-failed-by-storage-fault")
+			} else {
+				view.Vacuum(1 << 40)
+			}
+			// whatever happened, the writer's rows are unchanged and everything committed
+			// from here on must again be complete on its own
+			if rows, err := conn.Dump(tn); err != nil {
+				return fmt.Errorf("%s: scan after the vacuum (error: %v): %v", where, verr, err)
+			} else if m := view.Rows(wideCols); !m.Equal(rows) {
+				return fmt.Errorf("%s: rows changed across a vacuum (error: %v).\nnow:\n%smodel:\n%s", where, verr, rows, m)
 			}
 		case "noop-upd":
 			if err := conn.SetWriteTime(baseTime + 5); err != nil {
